@@ -680,6 +680,7 @@ func (Driver) Run(c *core.Ctx) {
 	runEnumeration(c, 1_000_000_000)
 	if c.Batch == 0 {
 		runCorpus(c, 2_000_000_000)
+		runTwinBounds(c, 4_000_000_000)
 	}
 	runPrefixEnumeration(c, 3_000_000_000, c.N(2, 3), 2)
 }
